@@ -246,6 +246,11 @@ def _judge_numeric(o, exp, need_value, signs, renv):
     r = {"imprecise": o["imprecise"]}
     if o["kind"] in ("unsupported", "limit"):
         r.update(status="unsupported", reason=o["msg"])
+    elif o["kind"] == "raise" and exc_name(o["exc"]) == "OverflowError":
+        r.update(status="ok", note="overflow: excluded by the property")
+    elif o["kind"] == "return" and isinstance(o["value"], SymNum) and isinstance(o["value"].conc, float) \
+            and (math.isinf(o["value"].conc) or math.isnan(o["value"].conc)):
+        r.update(status="ok", note="overflow to inf/nan: excluded by the property")
     elif o["kind"] == "raise":
         nm = exc_name(o["exc"])
         r.update(got="raise", exc=nm, origin=exc_origin(o["exc"]))
@@ -441,3 +446,71 @@ def _strip_sym(tree):
         return (k, [_strip_sym(c) for c in tree[1]])
     n = len(spec.children(tree))
     return (k,) + tuple(_strip_sym(c) for c in spec.children(tree)) + tuple(tree[1 + n:])
+
+
+def second_order_group(args):
+    """Worker for C05.second-order: Partial(Partial(e, v1).as_expression(), v2).at(p) against the
+    second specification derivative, for all valuations of one (tree, v1, v2)."""
+    from .interp_ops import Interpreter
+    from .interp import InterpRaise, StepLimit
+    tree, v1, v2, vals, early = args
+    model = load_model()
+    outs = []
+    t = spec.value_term(tree)
+    d2 = spec.diff(spec.diff(t, v1), v2)
+    it = Interpreter(model, max_steps=6000000)
+    it.generic_only = True
+    it.reset_run([])
+    stage = None
+    try:
+        e = build(it, tree, {})
+        kw = {"compute_early": True} if early else {}
+        first = _m(it, _ctor(it, "Partial", [e, v1], kw), "as_expression")
+        second = _ctor(it, "Partial", [first, v2], kw)
+    except InterpRaise as r:
+        stage = {"status": "raised", "exc": exc_name(r.exc), "origin": exc_origin(r.exc)}
+    except (Unsupported, StepLimit) as u:
+        stage = {"status": "unsupported", "reason": str(u)}
+    for val in vals:
+        out = {"tree": spec.show(tree), "val": describe_val(val), "v1": v1, "v2": v2}
+        try:
+            r0 = spec.eval_iv(tree, val)
+        except spec.Unknown as u:
+            out["skip"] = str(u)
+            outs.append(out)
+            continue
+        if r0[0] != "ok":
+            out["skip"] = "original undefined"
+            outs.append(out)
+            continue
+        if stage is not None:
+            out.update(stage)
+            outs.append(out)
+            continue
+        try:
+            v = _m(it, second, "at", make_point(it, val))
+        except InterpRaise as r:
+            out.update(status="raised", exc=exc_name(r.exc), origin=exc_origin(r.exc))
+            outs.append(out)
+            continue
+        except (Unsupported, StepLimit) as u:
+            out.update(status="unsupported", reason=str(u))
+            outs.append(out)
+            continue
+        if it.pos or not isinstance(v, (int, SymNum)) or isinstance(v, bool):
+            out.update(status="unjudged")
+            outs.append(out)
+            continue
+        signs = spec.signs_from_valuation({k: iv for k, iv in val.items() if not iv.is_point()})
+        verdict, wit = compare_terms(SymNum.of(v).term, _subst_points(d2, val), signs, region_env=region_env(val))
+        out["got"] = repr(v)
+        if verdict == "equal":
+            out["status"] = "ok"
+        elif verdict == "differ":
+            out.update(status="value-differs", witness=wit)
+        elif verdict == "undef2":
+            out["status"] = "unjudged"     # the second derivative itself is undefined there (e.g. at a kink)
+        else:
+            out.update(status="value-unknown", reason=f"{verdict}: {wit}")
+        outs.append(out)
+    return outs
